@@ -1,10 +1,10 @@
 package schedmc
 
 import (
-	"strings"
 	"encoding/json"
 	"fmt"
 	"sort"
+	"strings"
 	"time"
 
 	"github.com/olric-data/olric/internal/verif/core"
@@ -24,14 +24,14 @@ type jobParams struct {
 }
 
 type jobResult struct {
-	Prog      int
-	Name      string
-	Execs     int
-	Points    int
-	MaxPoints int
-	Conflicts int
-	Capped    bool
-	Outcomes  map[string]int
+	Prog       int
+	Name       string
+	Execs      int
+	Points     int
+	MaxPoints  int
+	Conflicts  int
+	Capped     bool
+	Outcomes   map[string]int
 	Violations []Violation
 }
 
